@@ -384,7 +384,7 @@ func TestCheck(t *testing.T) {
 		c.SetExhaustive("sym_all_configs", false)
 
 		// rapid: configurations x payloads incl. ECI / GS1 headers, exact-fill and terminator cases
-		c.Rapid("sym_random", c.N(400, 3000), func(t *rapid.T) {
+		c.Rapid("sym_random", c.N(400, 12000), func(t *rapid.T) {
 			v := rapid.IntRange(1, 40).Draw(t, "v")
 			if rapid.Bool().Draw(t, "small") {
 				v = rapid.IntRange(1, 10).Draw(t, "vs")
@@ -442,7 +442,7 @@ func TestCheck(t *testing.T) {
 				if !c.Mine(idx) {
 					continue
 				}
-				reps := c.N(1, 6)
+				reps := c.N(1, 16)
 				for r := 0; r < reps; r++ {
 					cs := RawCase{V: v, Level: (idx + r) % 4, Mask: m, Kind: kinds[(idx+r)%len(kinds)], Seed: c.Seed("raw", idx*8+r)}
 					raw, _ := json.Marshal(cs)
